@@ -36,7 +36,8 @@ DEFAULT_KNOBS = {
     "p_instance_global": 0.2, "p_nested_in_method": 0.3, "p_parent_relative": 0.5,
     "p_dunder_call": 0,     # callable instances; 0 = no random draw at all (opt-in per check)
     "p_kw_like_var": 0,     # calls of **kwargs functions pass a keyword spelled like a variable
-    "unique_names": 0,      # 1 = every binding gets its own spelling (no clashes anywhere in the project)
+    "unique_names": 0,      # 1 = every binding gets its own spelling (no clashes anywhere in the project);
+                            # 2 = the same, except that class attributes may reuse the spelling of a module global
 }
 
 PROFILES = {
@@ -565,7 +566,7 @@ class Gen:
         cctx = base_ctx.copy()
         for _ in range(self.rnd.randint(0, 2)):
             reuse = [g for g in mod.gvars if g not in taken]
-            if reuse and self.p("p_shadow") and not self.k["unique_names"]:
+            if reuse and self.p("p_shadow") and self.k["unique_names"] != 1:
                 a = self.rnd.choice(reuse)       # class attribute spelled like a module global
             else:
                 a = self.fresh(VNAMES + ["K", "LIMIT"], taken)
